@@ -115,13 +115,17 @@ def run(ctx):
                        "fresh-name twin of the same query.  non-trivial = twins of translatable queries with at least one adversarial name" % (len(patterns), dense, stride))
     seen = set()
     known_culprits = {}
+    n_min = 0
     for hid, ev, events, pos in rejected:
         sym = symptom(ev)
         pre = "%s/%s" % (sym, re.sub(r"[^a-z ]", "", (ev["twin_err"] or ev["diff"] or ev["panicmsg"]).lower().split(":")[0])[:50].strip().replace(" ", "-"))
         # the same symptom with a culprit already established that this renaming contains: the same finding, no need to minimise again
         if any(all(ev["adversarial"].get(k) == v for k, v in c.items()) for c in known_culprits.get(pre, [])):
             continue
-        cul = culprits(ctx, ev)
+        # minimisation re-runs the translator; when very many distinct renamings fail (a tree that is broken wholesale) the first
+        # 25 are minimised and the rest are reported with the whole renaming as they stand
+        n_min += 1
+        cul = culprits(ctx, ev) if n_min <= 25 else {k: v for k, v in ev["adversarial"].items() if not v.startswith("#v")} or ev["adversarial"]
         known_culprits.setdefault(pre, []).append(cul)
         key = "%s/%s" % (pre, "+".join(sorted("%s=%s" % (k.split(":")[0], name_class(v)) for k, v in cul.items())))
         if key in seen:
